@@ -22,7 +22,7 @@ RULE = ("seeded consumer histories (open/reseed with arbitrary integer seeds, re
         "GF(2) reference; distinct = (order, op kind, size class, outcome) signatures plus split-size sequence "
         "hashes in runs with >=3 successful calls; 'ident' tasks identify the one-step map black-box and compute "
         "primitivity, 'cycle'/'chunk' tasks enumerate the full period in resumed chunks")
-WALL = {"quick": 120, "thorough": 900, "replay": 900}
+WALL = {"quick": 300, "thorough": 1800, "replay": 1800}
 BLOCK = {"quick": 100000, "thorough": 100000}
 SELFTEST = {"quick": 24, "thorough": 200}
 COMPONENTS_REAL = ["opticomlib.devices.PRBS", "opticomlib.typing.binary_sequence"]
